@@ -27,16 +27,45 @@ fn same_sv(a: &SerializableValue, b: &SerializableValue) -> bool {
     }
 }
 
-#[kani::proof]
-#[kani::unwind(3)]
-fn u_json_scalar_roundtrip() {
-    let v = any_json_scalar();
+// The variant is dispatched OUTSIDE the calls (one call per constant variant): with a merged symbolic variant CBMC
+// explores every arm of to_json / from_json / to_value, including the pest parser behind the Lambda arm.
+fn json_roundtrip(v: SerializableValue) {
     let j = v.to_json();
     let back = SerializableValue::from_json(&j);
     assert!(same_sv(&v, &back), "U-JSON-SCALAR#from_json(to_json(v))-is-v-bit-exactly-for-finite-numbers-booleans-null");
-    kani::cover!(matches!(v, SerializableValue::Number(x) if x == 0.0 && x.is_sign_negative()), "reach-negative-zero");
-    kani::cover!(matches!(v, SerializableValue::Bool(true)), "reach-bool");
     std::mem::forget(j);
+    std::mem::forget(back);
+    std::mem::forget(v);
+}
+
+fn heap_roundtrip(v: SerializableValue) {
+    let mut h = Heap::verif_empty();
+    let val = match v.to_value(&mut h) { Ok(x) => x, Err(e) => { std::mem::forget(e); assert!(false, "U-JSON-SCALAR#to_value-never-fails-on-scalars"); return; } };
+    assert!(h.verif_len() == 0, "U-JSON-SCALAR#scalars-allocate-nothing");
+    let back = match SerializableValue::from_value(&val, &h) { Ok(x) => x, Err(e) => { std::mem::forget(e); assert!(false, "U-JSON-SCALAR#from_value-never-fails-on-scalars"); return; } };
+    assert!(same_sv(&v, &back), "U-JSON-SCALAR#from_value(to_value(v))-is-v-bit-exactly");
+    std::mem::forget(h);
+    std::mem::forget(back);
+    std::mem::forget(v);
+}
+
+fn finite() -> f64 {
+    let x: f64 = kani::any();
+    kani::assume(x.is_finite());
+    x
+}
+
+#[kani::proof]
+#[kani::unwind(3)]
+fn u_json_scalar_roundtrip() {
+    let k: u8 = kani::any();
+    match k % 3 {
+        0 => json_roundtrip(SerializableValue::Number(finite())),
+        1 => json_roundtrip(SerializableValue::Bool(kani::any())),
+        _ => json_roundtrip(SerializableValue::Null),
+    }
+    kani::cover!(k % 3 == 0, "reach-number");
+    kani::cover!(k % 3 == 2, "reach-null");
 }
 
 #[kani::proof]
@@ -44,12 +73,12 @@ fn u_json_scalar_roundtrip() {
 #[kani::stub(alloc::fmt::format, crate::verif_common::fmt_stub)]
 #[kani::stub(std::backtrace::Backtrace::capture, crate::verif_common::bt_stub)]
 fn u_json_scalar_heap_roundtrip() {
-    let v = any_json_scalar();
-    let mut h = Heap::verif_empty();
-    let val = match v.to_value(&mut h) { Ok(x) => x, Err(e) => { std::mem::forget(e); assert!(false, "U-JSON-SCALAR#to_value-never-fails-on-scalars"); return; } };
-    assert!(h.verif_len() == 0, "U-JSON-SCALAR#scalars-allocate-nothing");
-    let back = match SerializableValue::from_value(&val, &h) { Ok(x) => x, Err(e) => { std::mem::forget(e); assert!(false, "U-JSON-SCALAR#from_value-never-fails-on-scalars"); return; } };
-    assert!(same_sv(&v, &back), "U-JSON-SCALAR#from_value(to_value(v))-is-v-bit-exactly");
-    kani::cover!(matches!(v, SerializableValue::Null), "reach-null");
-    std::mem::forget(h);
+    let k: u8 = kani::any();
+    match k % 3 {
+        0 => heap_roundtrip(SerializableValue::Number(finite())),
+        1 => heap_roundtrip(SerializableValue::Bool(kani::any())),
+        _ => heap_roundtrip(SerializableValue::Null),
+    }
+    kani::cover!(k % 3 == 0, "reach-number");
+    kani::cover!(k % 3 == 1, "reach-bool");
 }
